@@ -25,6 +25,8 @@ func init() {
 			{ID: "C14.R6", Floor: 2, Doc: "bound-value count check dominates building the values", Run: c14r6},
 			{ID: "C14.R7", Floor: 2, Doc: "bounded cache: Add evicts beyond MaxEntries; size from MaxPreparedStmts", Run: c14r7},
 			{ID: "C14.R8", Floor: 1, Doc: "the single-flight PREPARE is executed on the connection context", Run: c14r8},
+			{ID: "C14.R9", Floor: 1, Doc: "keyFor concatenates host id, keyspace and statement as they are (no transformed component)", Run: c14r9},
+			{ID: "C14.R10", Floor: 1, Doc: "lru Get moves the entry to the front on every path that reports a hit", Run: c14r10},
 		},
 	})
 }
